@@ -16,9 +16,9 @@ CONSTANTS
   MinConv = 2000000
   TxValues <- RV02
   CallValues <- RV0
-  Regimes <- RAll
-  Prefills <- PFAll
-  TxKinds <- TKCallX
+  Regimes <- RBFG
+  Prefills <- PF2
+  TxKinds <- TKCall
   OpKinds <- OKAll
   DestClasses <- DAll
   AmtClasses <- AAll
